@@ -340,9 +340,34 @@ def spec_perft_validation(chk):
     return bad
 
 
+def binary_perft(chk):
+    """the binary's own `perft <depth> <fen>` command (main.rs + performance_test.rs) against the published counts, and its
+    per-move breakdown against the specification's legal moves"""
+    import subprocess
+    maxd = 3 if chk.tier == "quick" else 4
+    n = 0
+    for f, counts in PUBLISHED_PERFT:
+        for d in range(1, maxd + 1):
+            try:
+                r = subprocess.run([lib.ENGINE, "perft", str(d), f], capture_output=True, text=True, timeout=600)
+            except Exception as e:        # noqa
+                chk.violation("rustybait perft %d '%s' did not finish: %r" % (d, f, e), {"fen": f, "depth": d}, found_input=True)
+                continue
+            lines = [l for l in r.stdout.split("\n") if l.strip()]
+            total = lines[-1].strip() if lines else "?"
+            n += 1
+            if r.returncode != 0 or total != str(counts[d - 1]):
+                chk.violation("the engine's perft %d of %s is %s, the published count is %d" % (d, f, total, counts[d - 1]),
+                              {"fen": f, "depth": d, "output_tail": lines[-5:], "kind": "spec-oracle failure on the implementation (CLI)"})
+    chk.cov["binary_perft_counts_checked"] = n
+
+
 def check_C01(chk):
     lib.CURRENT_TIER = chk.tier
-    chk.spec_bad = spec_perft_validation(chk)
+    st = lib.build()          # the binary must be the current tree's before it is asked anything
+    chk.spec_bad = spec_perft_validation(chk) if st.get("specdriver") else []
+    if st.get("engine") and os.path.exists(lib.ENGINE):
+        binary_perft(chk)
     return position_check(chk, RULE_PLAYOUT + " Oracle: checked list (as UCI texts, sorted) = Rules.legal_moves; unchecked list = legal + pseudo-legal moves exposing the king.",
                           "distinct positions (FEN fields 1-4) with a check, a castling right, an en-passant file, a promotion available or a filtered move.")
 
@@ -388,7 +413,8 @@ def collide_run(chk):
 
 def check_C05(chk):
     lib.CURRENT_TIER = chk.tier
-    collide_run(chk)
+    if lib.build().get("harness_release"):
+        collide_run(chk)
     return position_check(chk, RULE_PLAYOUT + " Oracle: distinct FEN fields 1-4 => distinct hashes over the whole run (exploration half).",
                           "as C01.")
 
@@ -415,7 +441,8 @@ def replay_known_C16(chk):
 
 
 def check_C16(chk):
-    replay_known_C16(chk)
+    if lib.build().get("harness_release"):
+        replay_known_C16(chk)
     return position_check(chk, RULE_PLAYOUT + " Oracle: score = EvalSpec.eval with the king table in force for both kings; imported positions use the endgame table iff the phase rule says so.",
                           "as C01.")
 
